@@ -22,7 +22,7 @@ def origin(fn, op, depth=0, seen=None, maxdepth=40):
         if ptr and ptr.get("static_name"):
             return ("static", ptr["static_name"])
         v = const_value(op)
-        named = op.get("named")
+        named = op.get("named") or op.get("enum_variant")
         if v is None and "zst" in op:
             return ("const", "()", named)
         if v is None and "indirect" in op:
@@ -220,7 +220,7 @@ def calls_in(t, out=None):
     elif k == "callind":
         for a in t[2]:
             calls_in(a, out)
-    elif k in ("cast", "ref", "deref", "discr", "repeat", "field"):
+    elif k in ("cast", "ref", "deref", "discr", "repeat", "field", "captured"):
         calls_in(t[1], out)
     elif k == "bin":
         calls_in(t[2], out)
@@ -272,6 +272,8 @@ def show(t, depth=0):
         return "%s{%s}" % (short_path(t[1]), ", ".join(show(a, depth + 1) for a in t[2]))
     if k == "phi":
         return "phi(%s)" % " | ".join(show(a, depth + 1) for a in t[1])
+    if k == "captured":
+        return "cap(%s)" % show(t[1], depth + 1)
     if k == "self_closure":
         return "upvars"
     if k == "upvar":
@@ -460,7 +462,7 @@ def mentions(t, needle):
         return mentions(t[1], needle) or any(mentions(a, needle) for a in t[2])
     if k == "field":
         return needle in t[2] or mentions(t[1], needle)
-    if k in ("cast", "ref", "deref", "discr", "repeat"):
+    if k in ("cast", "ref", "deref", "discr", "repeat", "captured"):
         return mentions(t[1], needle)
     if k == "bin":
         return mentions(t[2], needle) or mentions(t[3], needle)
